@@ -174,6 +174,7 @@ func init() {
 			{Name: "C07.R5", Run: func(c *Ctx) { ruleEveryFileIsSearched(c, "C07.R5") }},
 			{Name: "C07.R6", Run: func(c *Ctx) { ruleReaderOffsetsAreFileOffsets(c, "C07.R6") }},
 			{Name: "C07.R7", Run: func(c *Ctx) { ruleNoSharedBuffers(c, "C07.R7") }},
+			{Name: "C07.R8", Run: func(c *Ctx) { ruleReadOffsetsNonNegative(c, "C07.R8") }},
 		},
 	})
 	register(&Property{
@@ -242,6 +243,7 @@ func init() {
 			{Name: "C09.R11", Run: func(c *Ctx) { ruleOptionalGuard(c, "C09.R11") }},
 			{Name: "C09.R12", Run: func(c *Ctx) { ruleScanDiscipline(c, "C09.R12") }},
 			{Name: "C09.R13", Run: func(c *Ctx) { ruleEmptyReadsNotIndexed(c, "C09.R13") }},
+			{Name: "C09.R14", Run: func(c *Ctx) { ruleReadOffsetsNonNegative(c, "C09.R14") }},
 		},
 	})
 	register(&Property{
@@ -312,6 +314,8 @@ func init() {
 			{Name: "C14.R1", Run: func(c *Ctx) { ruleRegexQuantifiers(c, "C14.R1") }},
 			{Name: "C14.R2", Run: func(c *Ctx) { ruleRegexAtoms(c, "C14.R2") }},
 			{Name: "C14.R3", Run: func(c *Ctx) { ruleRegexGroupOrder(c, "C14.R3") }},
+			{Name: "C14.R4", Run: func(c *Ctx) { ruleQuantifierWrapsAtom(c, "C14.R4") }},
+			{Name: "C14.R5", Run: func(c *Ctx) { ruleQuantifierCharsAgree(c, "C14.R5") }},
 		},
 	})
 	register(&Property{
